@@ -172,6 +172,8 @@ type HistProfile struct {
 	MetaHeavy     bool
 	AdversarialKV bool
 	IKHeavy       bool // C13: most operations carry a key, a quarter are replays (same or altered input)
+	FutureMeta    bool // C17: more future-dated transactions, and metadata writes aimed at them (history revision 1 is dated at the
+	// transaction's timestamp, later revisions at the write: dates and revisions then disagree in order)
 	PostingsHeavy bool // C25: long postings lists over few accounts, amounts close to the balances
 }
 
@@ -202,6 +204,7 @@ func genMeta(r *Rng, p HistProfile) []KV {
 func genHistory(r *Rng, p HistProfile, feat Feat, exec func(Op) OpResult) []Op {
 	n := 1 + r.Intn(p.MaxOps)
 	var okTx []int64
+	var futTx []int64 // committed transactions dated after their own commit
 	base := int64(1700000000) * 1000000
 	now := base
 	var ops []Op
@@ -265,6 +268,10 @@ func genHistory(r *Rng, p HistProfile, feat Feat, exec func(Op) OpResult) []Op {
 				t := Pick(r, []int64{base - 3600*1000000, base + 500000, now - 60*1000000, now, now + 60*1000000, base + 5*1000000})
 				o.TS = &t
 			}
+			if p.FutureMeta && r.Chance(30) {
+				t := now + int64(30+r.Intn(3)*30)*1000000
+				o.TS = &t
+			}
 			if r.Chance(25) {
 				o.Ref = Pick(r, []string{"r1", "r2", "ref:3"})
 			}
@@ -292,6 +299,9 @@ func genHistory(r *Rng, p HistProfile, feat Feat, exec func(Op) OpResult) []Op {
 			if len(okTx) > 0 && r.Chance(75) {
 				o.TxID = Pick(r, okTx)
 			}
+			if p.FutureMeta && len(futTx) > 0 && r.Chance(60) {
+				o.TxID = Pick(r, futTx)
+			}
 			o.Meta = genMeta(r, p)
 			if len(o.Meta) == 0 {
 				o.Meta = []KV{{"k1", "v1"}}
@@ -306,6 +316,9 @@ func genHistory(r *Rng, p HistProfile, feat Feat, exec func(Op) OpResult) []Op {
 			o.TxID = 1 + int64(r.Intn(int(ntx)+1))
 			if len(okTx) > 0 && r.Chance(75) {
 				o.TxID = Pick(r, okTx)
+			}
+			if p.FutureMeta && len(futTx) > 0 && r.Chance(60) {
+				o.TxID = Pick(r, futTx)
 			}
 			o.Key = Pick(r, []string{"k1", "k2", "role"})
 		case k < 95:
@@ -349,6 +362,9 @@ func genHistory(r *Rng, p HistProfile, feat Feat, exec func(Op) OpResult) []Op {
 		}
 		if res.Class == "none" && res.TxID != nil && !o.Dry {
 			okTx = append(okTx, *res.TxID)
+			if o.Kind == "create" && o.TS != nil && *o.TS > o.Now {
+				futTx = append(futTx, *res.TxID)
+			}
 		}
 	}
 	return ops
